@@ -245,7 +245,7 @@ def gen_col(rng, name, kind, n, pattern, nullmode, maxlen=513):
         uidx = sorted(range(len(used)), key=lambda i: pool.index(used[i]))     # used labels by value order
         rk = ranks(rng, n, len(uidx), pattern)
         codes = sprinkle(rng, [uidx[r] for r in rk], nullmode, -1)
-        spec.update(k="cat", cats=mk(labels), v=codes, nulls=nullmode != "none", pdk="O", ordered=rng.random() < 0.2)
+        spec.update(k="cat", cats=mk(labels), v=codes, nulls=nullmode != "none", pdk="O", ordered=rng.random() < 0.45)
     else:
         raise ValueError(kind)
     return spec
@@ -315,6 +315,9 @@ def gen_case(rng, quick):
         opts["times"] = "int96"
     if rng.random() < 0.1 and n > 1:
         opts["file_scheme"] = "hive"
+    elif rng.random() < 0.15 and n > 1:
+        # generator dimension `multi`: two files with the columns in opposite order, opened together
+        opts["multi"] = rng.randrange(1, n)
     return {"cols": cols, "opts": opts, "n": n}
 
 
@@ -344,10 +347,10 @@ def examine(case, path, pq=None, ctx=None):
     # the user-facing views are taken as a SHORT CALL SEQUENCE ON ONE HANDLE: statistics, sorted_partitioned_columns without and
     # with a filter that prunes some row groups (chosen on a separate handle), in both orders, and both again afterwards; every
     # result is compared with the values recomputed from the stored chunks, the unfiltered results before/after with each other
-    pf = ParquetFile(path)
+    pf = S.open_case(case, path)
     nrg0 = len(pf.row_groups)
     early = pf[1:] if nrg0 > 1 else pf[0:1]          # derived BEFORE any cache of the parent is filled, read at the end
-    filt, fidx = _pick_filter(path)
+    filt, fidx = _pick_filter(path, case)
     order = (case["n"] + len(case["cols"])) % 2
     stat_views, sorted_views = [], []
 
@@ -401,7 +404,7 @@ def examine(case, path, pq=None, ctx=None):
     try:
         esel = allr[1:] if nrg0 > 1 else allr
         dviews.append(("pf[1:] taken before pf.statistics was evaluated, read after: .statistics", copy.deepcopy(early.statistics), esel))
-        p2 = ParquetFile(path)
+        p2 = S.open_case(case, path)
         child = p2[1:] if nrg0 > 1 else p2[0:1]
         dviews.append(("child = p2[1:] of a fresh handle p2: child.statistics", copy.deepcopy(child.statistics), esel))
         dviews.append(("p2.statistics after child.statistics", copy.deepcopy(p2.statistics), allr))
@@ -661,13 +664,13 @@ def S_bytes(x):
     return x.encode("utf-8") if isinstance(x, str) else bytes(x)
 
 
-def _pick_filter(path):
+def _pick_filter(path, case=None):
     """-> (filters, indices of the row groups fastparquet's own row-group filter keeps) for a numeric column such that
     some but not all row groups are kept; decided on a SEPARATE handle so that the handle under test is untouched"""
     import numpy as np
     from fastparquet import ParquetFile, api
     try:
-        aux = ParquetFile(path)
+        aux = S.open_case(case, path) if case is not None else ParquetFile(path)
         nrg = len(aux.row_groups)
         if nrg < 2:
             return None, None
@@ -762,6 +765,7 @@ def run(ctx):
             rc.count("opts.stats", case["opts"]["stats"] if not isinstance(case["opts"]["stats"], list) else "list")
             rc.count("opts.pages", "v2" if case["opts"].get("v2") else "v1")
             rc.count("opts.rowgroups", len(case["opts"]["rgo"]))
+            rc.count("opts.layout", "two files, opposite chunk order" if case["opts"].get("multi") else case["opts"].get("file_scheme", "one file"))
             rc.count("files_examined", "n")
             for cls, det in fails:
                 rc.fail(cls, {"cols": case["cols"], "opts": case["opts"], "n": case["n"], "focus": det}, det["detail"])
